@@ -22,7 +22,7 @@ Lemma has_elements_is_nonempty_l : forall l, lq_hasElements (head_isnil l) = has
 Proof. intros [|x l]; reflexivity. Qed.
 
 (* ---- API surface audit: every method of the modelled types, and where it lives in the model -----------------
-   cond            Signal -> Model.signal; Wait -> labels LOffer/LRelockTok (waiting++), LSelTok, LSelCtx, LRelockTok,
+   cond            Signal (+ ring: the non-blocking bell) -> Model.signal; Wait -> labels LOffer/LRelockTok (waiting++), LSelTok, LSelCtx, LRelockTok,
                    LRelockCtx; Broadcast -> Model.bcast / LBroadcast (called by no production code)
    memoryQueue     Offer/add -> Model.offer, try_add, enqueue; Read -> read / cread; onDone -> done; Shutdown ->
                    LShutdown; Size -> field size; Capacity -> cap; Start -> no-op (component.StartFunc)
@@ -39,7 +39,7 @@ Proof. intros [|x l]; reflexivity. Qed.
    the model has to be reviewed before the list is updated. *)
 Local Open Scope string_scope.
 
-Definition api_cond : list string := ["Broadcast"; "Signal"; "Wait"].
+Definition api_cond : list string := ["Broadcast"; "Signal"; "Wait"; "ring"].
 Definition api_memory_queue : list string :=
   ["Capacity"; "Offer"; "Read"; "Shutdown"; "Size"; "Start"; "add"; "onDone"].
 Definition api_persistent_queue : list string :=
